@@ -27,7 +27,7 @@ STATE_MEASURE = 'distinct (exported path set, query kind, queried path) at proce
 PROBES = ['sibling-prefix-both-exported', 'introspect-intermediate-path', 'introspect-fails',
           'gmo-with-descendants', 'gmo-root', 'query-in-flight-across-export',
           'query-in-flight-across-unexport', 'call-to-unexported', 'unexport-then-reexport', 'same-instance-reexported', 'property-assigned-after-export',
-          'export-over-exported-path', 'export-call-raised', 'unexport-of-unexported-path', 'failed-export-fate-observed', 'failed-export-over-exported-path', 'exported-object-is-falsy', 'object-unexports-itself-from-a-call', 'export-from-inside-setObjectHandler',
+          'export-over-exported-path', 'export-call-raised', 'unexport-of-unexported-path', 'failed-export-fate-observed', 'failed-export-over-exported-path', 'ancestors-introspected-before-failing-export', 'exported-object-is-falsy', 'object-unexports-itself-from-a-call', 'export-from-inside-setObjectHandler',
           'gmo-sibling-prefix-case']
 COMPONENTS = {
     'real': ['txdbus.objects.DBusObjectHandler (exportObject, unexportObject, getManagedObjects, '
@@ -219,6 +219,7 @@ def scenario(ctx):
             sim.probe('sibling-prefix-both-exported')
 
     uncertain = {}   # path -> {'alts': set of bool still possible, 'rec': record} (failed export)
+    staged = [None]  # (path, number of queries sent) of a failing export that waits for its prelude
 
     def op_export_fails():
         # exportObject() of an object one of whose readable properties was never assigned: the
@@ -237,6 +238,20 @@ def scenario(ctx):
             sim.probe('failed-export-over-exported-path')
         cs, klass = cands[ds.choose(len(cands))]
         vals = {}
+        if staged[0] is None and ds.flag(0.6):
+            # first look at the ancestors of the path (whatever the library remembers about
+            # them is remembered now); the failing export follows once they have answered
+            anc = [a for a in QUERY_PATHS if a != p and below(p, a)]
+            for a in anc[:3]:
+                send_query('introspect', a)
+            staged[0] = (p, len(queries))
+            sim.probe('ancestors-introspected-before-failing-export')
+            return
+        if staged[0] is not None:
+            p = staged[0][0]
+            staged[0] = None
+            if p in uncertain or (p in E and False):
+                return op_export()
 
         def mk():
             o = klass(p)
@@ -264,6 +279,11 @@ def scenario(ctx):
         uncertain[p] = {'alts': {True, False} if raised else {True},
                         'rec': {'obj': o, 'cs': cs, 'vals': vals}}
         sim.probe('export-call-raised')
+        # ... and every view of the neighbourhood is asked at once
+        send_query('call', p)
+        send_query('introspect', p)
+        for a in [a for a in QUERY_PATHS if a != p and below(p, a)][:3]:
+            send_query('introspect', a)
 
     def op_unexport_missing():
         # clean-up running twice: unexport of a path that is not exported implies nothing
@@ -318,11 +338,16 @@ def scenario(ctx):
             raise Violation('C16/announce', member + ' interfaces',
                             '%s of %s lists interfaces %r, object has %r' % (member, path, names, want))
 
-    def op_query():
-        kind = ds.weighted([3, 3, 2, 0.5, 0.7])
-        p = QUERY_PATHS[ds.choose(len(QUERY_PATHS))]
-        if kind == 3 and E:
-            p = sorted(E)[ds.choose(len(E))]
+    def send_query(kindname, p):
+        kind = ('introspect', 'gmo', 'call', 'close', 'peer-other').index(kindname)
+        return op_query(kind, p)
+
+    def op_query(kind=None, p=None):
+        if kind is None:
+            kind = ds.weighted([3, 3, 2, 0.5, 0.7])
+            p = QUERY_PATHS[ds.choose(len(QUERY_PATHS))]
+            if kind == 3 and E:
+                p = sorted(E)[ds.choose(len(E))]
         q = {'kind': ('introspect', 'gmo', 'call', 'close', 'peer-other')[kind], 'path': p, 'epoch': epoch[0]}
         if kind == 0:
             m = daemon.call(p, 'Introspect', 'org.freedesktop.DBus.Introspectable', sender=':1.60',
@@ -350,6 +375,11 @@ def scenario(ctx):
             if budget[0] > 0:
                 def op():
                     budget[0] -= 1
+                    if staged[0] is not None:
+                        if all(q.get('judged') for q in queries[:staged[0][1]]) and not uncertain \
+                                and (staged[0][0] not in E or True):
+                            return op_export_fails()
+                        return          # (nothing else touches the tree while the prelude is out)
                     (op_export, op_unexport, op_assign, op_unexport_missing,
                      op_export_fails)[ds.weighted([6, 4, 1.5, 1, 0.6])]()
                 ops.append(('tree', op))
